@@ -174,6 +174,7 @@ type world struct {
 	calls    int64
 	inflight []int // concurrent HandleEventBatch calls per operator
 	maxConc  int
+	overtakes int
 	exit     chan error
 }
 
@@ -422,7 +423,12 @@ func (h *hHandler) KeyEventBatch(ctx context.Context, events [][]byte) ([][]*han
 		return nil, err
 	}
 	w.s.At("fetch.call", ids)
-	w.jitter()
+	w.mu.Lock()
+	auto := w.auto
+	w.mu.Unlock()
+	if auto {
+		w.jitter()
+	}
 	out := make([][]*handlerpb.KeyedEvent, len(events))
 	for i, rc := range recs {
 		out[i] = []*handlerpb.KeyedEvent{{Key: []byte(rc.Key), Timestamp: timestamppb.New(time.Unix(0, int64(rc.G)*int64(time.Millisecond))), Value: events[i]}}
@@ -515,22 +521,32 @@ func (o *hOp) HandleEventBatch(ctx context.Context, batch []*workerpb.Event) err
 	}
 	w.mu.Lock()
 	w.inflight[o.i]++
-	if w.inflight[o.i] > w.maxConc {
-		w.maxConc = w.inflight[o.i]
+	conc := w.inflight[o.i]
+	if conc > w.maxConc {
+		w.maxConc = conc
 	}
 	gated := !w.auto
-	if !gated {
-		// free-running: the operator sees calls in arrival order
+	if gated && conc > 1 {
+		// A second call to this operator while an earlier one is still in
+		// flight (held at the gate): nothing orders two concurrent requests,
+		// the adversarial operator handles the later one first.
 		w.deliverLocked(o.i, items)
+		w.overtakes++
+		w.inflight[o.i]--
+		w.mu.Unlock()
+		return nil
 	}
 	w.mu.Unlock()
 	if gated {
 		w.s.At("op.call", o.i, items)
-		w.mu.Lock()
-		w.deliverLocked(o.i, items)
-		w.mu.Unlock()
 	} else {
-		w.jitter()
+		w.jitter() // time in flight: concurrent requests may arrive in any order
+	}
+	w.mu.Lock()
+	w.deliverLocked(o.i, items)
+	w.mu.Unlock()
+	if !gated {
+		w.jitter() // handler latency (back-pressure)
 	}
 	w.mu.Lock()
 	w.inflight[o.i]--
